@@ -440,7 +440,9 @@ func (e *Env) call(x *ECall) Val {
 		}
 		srt, known := e.g.vc.heapVarSorts[k.V]
 		if !known {
-			e.fail("unchangedOld: heap variable %s is not used by this function (known: see `govc vc`)", k.V)
+			// the function (and everything it calls) neither reads nor writes the variable: trivially unchanged
+			e.g.vc.abstract("unchangedOld(" + k.V + "): the heap variable is not touched by this function")
+			return Val{T: "true", Ty: tBool}
 		}
 		a, b := e.g.entry.Get(k.V, srt), e.now.Get(k.V, srt)
 		if a == b {
